@@ -719,6 +719,7 @@ func (o *Oracles) finalChecks(w *World) {
 				continue // waiting for a pipeline that is (reported) alive is what wait does
 			}
 			w.violate("C11", "call-never-returns", fmt.Sprintf("control call %q (event #%d) has not returned after %d ms of simulated idleness; every plugin and store call has been served (stored status: %s)", strings.TrimSpace(note), seq, idleMs, statusName(st)))
+			o.wedged(w, fmt.Sprintf("control call %q (event #%d) has not returned after %d ms of simulated idleness", strings.TrimSpace(note), seq, idleMs))
 			if o.ctl.forceStopIssued && o.ctl.forceStopped && (strings.HasPrefix(note, "wait") || strings.HasPrefix(note, "forcestop")) {
 				w.violate("C12", "force-stop-did-not-terminate", fmt.Sprintf("after a force stop that returned success, %q (event #%d) has not returned after %d ms of simulated idleness: the run does not terminate", strings.TrimSpace(note), seq, idleMs))
 			}
@@ -735,11 +736,13 @@ func (o *Oracles) finalChecks(w *World) {
 			w.violate("C11", "plugin-session-left-open", fmt.Sprintf("the pipeline is %s and nothing is in flight, yet plugin sessions %v opened by it were never torn down (idle for %d ms); the connectors are not released, the pipeline cannot be started again", statusName(st), open, idleMs))
 		case ok && st == 1 && len(open) > 0 && !o.statusWriteFailedEver && w.worldParked() == 0:
 			w.violate("C11", "run-never-ends", fmt.Sprintf("pipeline is still running with open plugin sessions %v after %d ms of simulated idleness; every plugin and store call has been served and no node is waiting for the outside world", open, idleMs))
+			o.wedged(w, fmt.Sprintf("the pipeline is still running with open plugin sessions %v after %d ms of simulated idleness and no node is waiting for the outside world", open, idleMs))
 			if o.ctl.forceStopIssued && o.ctl.forceStopped {
 				w.violate("C12", "force-stop-did-not-terminate", fmt.Sprintf("a force stop returned success but the run never ended: plugin sessions %v are still open after %d ms of simulated idleness", open, idleMs))
 			}
 		case ok && st == 1 && len(open) > 0 && !o.statusWriteFailedEver && owed != "":
 			w.violate("C10", "silent-stall", fmt.Sprintf("pipeline has been idle for %d ms while still reported running: %s; every plugin and store call has been served, the sources have nothing more to give and the destinations owe no acknowledgment", idleMs, owed))
+			o.wedged(w, fmt.Sprintf("the pipeline has been idle for %d ms while still reported running (%s) although the destinations owe no acknowledgment", idleMs, owed))
 		case ok && st == 5 && !o.statusWriteFailedEver:
 			w.violate("C10", "recovery-never-resumes", fmt.Sprintf("pipeline is still recovering after %d ms of simulated idleness (max back-off %d ms); every plugin and store call has been served", idleMs, w.cfg.Recovery.MaxDelayMs))
 		}
@@ -747,6 +750,13 @@ func (o *Oracles) finalChecks(w *World) {
 	if w.cfg.Healthy && !w.finished {
 		w.violate("C06", "stop-hang", fmt.Sprintf("healthy run did not complete: steps=%d sim=%dms notes=%v", w.step, w.now(), w.notes))
 	}
+}
+
+// wedged: C09's "the engine neither panics nor hangs" - every reply the plugins owed has been
+// given (nothing is parked at any seam, no stall fault is pending) and the engine still does
+// not move. The same event is reported under C11 / C10 by the callers.
+func (o *Oracles) wedged(w *World, what string) {
+	w.violate("C09", "engine-wedged", "after every plugin and store call had been answered the engine hangs: "+what)
 }
 
 // openSessions lists plugin sessions of the live incarnation that were opened and not torn down.
